@@ -136,6 +136,7 @@ class Analyzer(object):
     def _read_error_into_dict(line, d):
         name, values = line.split('   ', 1)
         name = name.strip(': ').strip()
+        values = values.strip(': ').strip()
         v, e = values.split(' +/- ')
         d[name.lower()] = float(v)
         d['%s error' % name.lower()] = float(e)
